@@ -29,6 +29,7 @@ import (
 	"reflect"
 	"slices"
 	"sort"
+	"strings"
 	"sync/atomic"
 	"time"
 	"unsafe"
@@ -361,9 +362,17 @@ func (x *router) dispatchToRoutees(ctx *ReceiveContext, msg any, routees []*PID)
 func (x *router) routeByStrategy(ctx *ReceiveContext, msg any, routees []*PID) {
 	switch x.routingStrategy {
 	case RoundRobinRouting:
-		n := atomic.AddUint32(&x.roundRobinNext, 1)
-		routee := routees[(int(n)-1)%len(routees)]
-		ctx.Tell(routee, msg)
+		// routees is collected from a map, whose iteration order changes from
+		// one call to the next: give it a stable order so that successive
+		// messages really cycle through the pool
+		slices.SortFunc(routees, func(a, b *PID) int { return strings.Compare(a.ID(), b.ID()) })
+		// roundRobinNext holds the position of the next routee, reduced modulo
+		// the pool size: it never grows, so it never wraps around. (An
+		// ever-increasing uint32 counter reaches 0 after 2^32 messages, where
+		// (int(n)-1) is -1: index out of range, message lost.)
+		idx := atomic.LoadUint32(&x.roundRobinNext) % uint32(len(routees))
+		atomic.StoreUint32(&x.roundRobinNext, idx+1)
+		ctx.Tell(routees[idx], msg)
 	case RandomRouting:
 		routee := routees[rand.IntN(len(routees))] //nolint:gosec
 		ctx.Tell(routee, msg)
